@@ -1247,6 +1247,36 @@ check(const json& c)
     }
 }
 
+//! Input classes that are skipped as a whole because of known findings (work/notes/C15_findings.md); a replayed case of
+//! such a class is neither pass nor fail.  VERIF_NO_EXCLUDE=1 switches this off.
+//! F1 (TOF combining) and F4 (overlap_interpolate assertions) are not skipped: the case runs with the assertions off around
+//! the affected call / for the re-run and is counted under excluded_known inside check().
+std::string
+known_signature(const json& c)
+{
+  if (no_exclude)
+    return "";
+  if (c["part"].get<std::string>() == "ssrb")
+    {
+      // F2: no complete output segment: num_segments_to_combine/2 > last processed input segment
+      const int span = c["pdi"]["span"], max_delta = c["pdi"]["max_delta"];
+      const int max_seg = span % 2 == 1 ? std::max(0, (max_delta - (span - 1) / 2 + span - 1) / span) : -1;
+      const int max_in_seg = c["max_in_seg"];
+      const int eff = max_in_seg >= 0 ? max_in_seg : max_seg;
+      if (max_seg >= 0 && c["nseg"].get<int>() / 2 > eff)
+        return "C15:F2:SSRB num_segments_to_combine/2 > last processed input segment";
+      return "";
+    }
+  // F3: transaxial overloads with "nothing to do" in x on an image whose y size differs from new_size
+  const json& im = c["img"];
+  const int ny = im["n"][1], nx = im["n"][2];
+  const bool standard = im["min"][0].get<int>() == 0 && im["min"][1].get<int>() == -(ny / 2) && im["min"][2].get<int>() == -(nx / 2);
+  if (c.value("iso_xy", false) && standard && c["zoom"][2].get<float>() == 1.F && c["off"][1].get<float>() == 0.F && c["off"][2].get<float>() == 0.F
+      && c["sizes"][2].get<int>() == nx && ny != nx)
+    return "C15:F3:zoom_image(image,zoom=1,0,0,new_size==x size) on an image with y size != x size";
+  return "";
+}
+
 bool
 nontrivial(const json& c)
 {
@@ -1322,6 +1352,7 @@ the_property()
   p.check = check;
   p.nontrivial = nontrivial;
   p.fixed_cases = fixed_cases;
+  p.known_signature = known_signature;
   p.rule = "ssrb: at least two of (segments, views, TOF bins) combined and >= 5 detector pairs; zoom: non-unit factor on >= 2 axes and a non-zero offset";
   return p;
 }
